@@ -35,6 +35,9 @@ def variants(algo, tier):
         out.append(("sparsity-int", {"init": "random", "sparsity": 2}, 3 if q else 6, True))
         out.append(("mask", {"init": "random", "mask": "MASK"}, 3 if q else 6, True))
         out.append(("mask-svd", {"init": "svd", "mask": "MASK"}, 3 if q else 6, True))
+        # accepted line-search jumps re-impute the missing entries: the norm the error is relative to changes with them
+        out.append(("mask-linesearch", {"init": "random", "mask": "MASK", "linesearch": True}, 9 if q else 13, True))
+        out.append(("mask-linesearch-svd", {"init": "svd", "mask": "MASK", "linesearch": True}, 9 if q else 13, True))
         out.append(("l2reg", {"init": "svd", "l2_reg": 0.1}, 3 if q else 6, False))
         out.append(("orthogonalise", {"init": "svd", "orthogonalise": 2}, 3 if q else 6, False))
         out.append(("fixed-mode0", {"init": "random", "fixed_modes": [0]}, 3 if q else 6, False))
